@@ -395,7 +395,7 @@ namespace
     if (n == "stv") return zw_cdom_elfsym_stv ();
     if (n == "line") return &line_number_dom;
     if (n == "col") return &column_number_dom;
-    if (n.compare (0, 4, "stt:") == 0 || n.compare (0, 4, "stb:") == 0)
+    if (n.compare (0, 4, "stt.") == 0 || n.compare (0, 4, "stb.") == 0)
       {
 	zw_error *err;
 	zw_machine *m = zw_machine_init (atoi (n.c_str () + 4), &err);
